@@ -30,10 +30,22 @@ def check_case(rep, case, name):
                 parts = []
                 for idx, (m, s, v) in enumerate(listed):
                     parts.append('%s%r as.polynomial %r %r' % (m, s, v, 0.5 * v))
-                mr = from_config(' '.join(parts))
+                defn = ' '.join(parts)
+                if case.get('siblings'):
+                    # the same model also declares, before and after this entry, entries that differ from it only in the MARKER of each range
+                    # (all entries of a file go through one builder): what this entry denotes must not depend on them
+                    flip = ' '.join('%s%r as.polynomial %r %r' % ('>' if m == '>=' else '>=', s, v, 0.5 * v) for m, s, v in listed)
+                    from atsim.potentials.config import Configuration
+                    ini = '[Tabulation]\ntarget : LAMMPS\nnr : 11\ncutoff : 10.0\n\n[Pair]\nA-A : %s\nA-B : %s\nB-B : %s\n' % ((flip, defn, flip) if case['siblings'] == 'before' else (defn, defn, flip))
+                    tab = Configuration().read(io.StringIO(ini))
+                    mr = [p_ for p_ in tab.potentials if (p_.speciesA, p_.speciesB) == ('A', 'B')][0].potentialFunction
+                else: mr = from_config(defn)
         except Exception as e:
             rep.dev(name, case, 'exception %r' % (e,), 'a multi-range potential'); return
-        for r in case['rs']:
+        # evaluation history: the selection at r must not depend on what the same object was asked before (ascending, descending, shuffled sweeps)
+        hist = list(case['rs']) + list(reversed(case['rs']))
+        sh = list(case['rs']) * 2; random.Random(len(sh) * 7919 + len(ranges)).shuffle(sh)
+        for r in hist + sh:
             sel = spec_select(ranges, r)
             want = 0.0 if sel is None else ranges[sel][2] + 0.5 * ranges[sel][2] * r
             wantd = 0.0 if sel is None else 0.5 * ranges[sel][2]
@@ -58,7 +70,9 @@ def gen_case(rng):
     if route == 'config':
         # a potable definition has the range markers in the text; negative separations are not tabulated
         rs = [r for r in rs if r >= 0]
-    return dict(route=route, ranges=ranges, perm=perm, rs=rs)
+    c = dict(route=route, ranges=ranges, perm=perm, rs=rs)
+    if route == 'config' and rng.random() < 0.5: c['siblings'] = rng.choice(['before', 'after'])
+    return c
 
 if __name__ == '__main__':
     pl = payload(); rep = Report('C08')
